@@ -255,7 +255,8 @@ PROPS["C01"] = {
                 "values sent as `any` holding []byte and a binary value shared between two arguments are recorded findings of C09 (D33, D17)",
                 "packets restored after session recovery are C08's (findings D17b, D18)"],
     "level_text": "Lean 4 theorems for the carriage, the reassembly and their composition (end_to_end_polling, end_to_end_websocket: the sender's blocks, cut into long-polling payloads in any way "
-                  "or sent as WebSocket messages, are decoded and reassembled into exactly one packet per block, in order, leaving the decoder idle), for every input: each frame put on a WebSocket decodes to itself; for every partition of the frame stream "
+                  "or sent as WebSocket messages, are decoded and reassembled into exactly one packet per block, in order, leaving the decoder idle; emits_become_packets: for every interleaving of emits by any number of goroutines with the sender's takes, the stream reassembles into one "
+                  "packet per emit), for every input: each frame put on a WebSocket decodes to itself; for every partition of the frame stream "
                   "into non-empty long-polling payloads each payload decodes to exactly the frames put into it (attachments as base64), and the concatenation is the stream "
                   "sent; Engine.IO control packets interleaved anywhere never reach the Socket.IO decoder; a stream made of well-formed blocks (header frame + the attachments "
                   "it announces) yields exactly one finished packet per block, in order, and leaves the decoder idle. Together with C02 (blocks are contiguous and in order on the "
